@@ -5,6 +5,8 @@ import NixModel.Lemmas.C15Hist
 import NixModel.Lemmas.C15Select
 import NixModel.Lemmas.C15Range
 import NixModel.Lemmas.C15Float
+import NixModel.Lemmas.C15Shape
+import NixModel.Lemmas.C15Poly
 
 /-!
 # C15 — calibration is applied on every read and never touches the stored values
@@ -288,6 +290,179 @@ example (u : Rat) (hu : 0 ≤ u) (y top : Rat) (rest : List Rat) :
     FloatPolyval u y (rest.reverse ++ [top]) (polyvalLoop y top rest) :=
   ⟨top, rest, by simp, floatLoop_exact u y hu rest top⟩
 
+/-! ## The tie to the source: statement lists regenerated from `/repo` compute the model functions
+
+`Generated/CalibShape.lean` is rewritten by `harness/extract/calibshape.py` on every run from
+`DataArray._read_data`, `util.apply_polynomial`, `DataView._read_data`, the two calibration setters / getters
+and the `DataSet` entry points.  The theorems below are about those generated definitions: an edit of the
+source that stays inside the translator's vocabulary but changes what is computed (order of subtraction and
+evaluation, the test `len(coeff) or origin`, the default origin, the conversion, the HDF5 names, the helper
+that is called) makes `lake build` fail here; an edit outside the vocabulary makes the translator refuse. -/
+
+/-- **`DataArray._read_data` as it stands in the source is the model `readData`**: the generated statement
+list, run with the generated body of `util.apply_polynomial`, returns the same result or the same refusal for
+every array and every index expression. -/
+theorem C15_shape_read_data (a : Arr) (ix : Index) :
+    readDataG Gen.readDataBody Gen.applyPolynomialBody a ix = readData a ix :=
+  shape_read_data a ix
+
+/-- **`DataView._read_data` as it stands in the source is the model `readView`** (the parent read being the
+array's `_read_data`). -/
+theorem C15_shape_view_read (a : Arr) (v : View) (uix : Index) :
+    runView readData a v uix Gen.viewReadBody none = readView a v uix :=
+  shape_view_read a v uix
+
+/-- **the two setters as they stand in the source are the model setters**, interpreted over the HDF5 names
+the two *getters* read (a setter writing under another name than the getter reads is outside the
+interpreter and cannot satisfy this). -/
+theorem C15_shape_setters (a : Arr) :
+    (∀ c, Gen.coeffSetterBody.run Gen.coeffGetterName Gen.originGetterName (.coeff c) a = setCoeffs a c) ∧
+    (∀ o, Gen.originSetterBody.run Gen.coeffGetterName Gen.originGetterName (.origin o) a = setOrigin a o) :=
+  ⟨shape_set_coeffs a, shape_set_origin a⟩
+
+/-- **every entry point reads through `_read_data`**: `obj[index]`, `np.array(obj)`, `obj.read_direct(buf)` and
+iteration are, in `DataSet`, a plain `self._read_data(...)`, and neither `DataArray` nor `DataView` overrides
+them — so the theorems about `readData` / `readView` speak about each of them. -/
+theorem C15_shape_entry_points :
+    Gen.getitemReads = true ∧ Gen.arrayReads = true ∧ Gen.readDirectReads = true ∧ Gen.iterReads = true := by
+  decide
+
+/-- the formula, stated for the generated program: what the source's `_read_data` returns for a calibrated
+array is `Σ cₖ (x − o)ᵏ` of the selected raw elements, as doubles -/
+theorem C15_generated_read_formula (a : Arr) (ix : Index) (r : Result) (hcal : calibrated a = true)
+    (h : readDataG Gen.readDataBody Gen.applyPolynomialBody a ix = .ok r) :
+    ∃ shape pos xs, select a.shape ix = .ok (shape, pos) ∧ gather a.raw pos = .ok xs ∧
+      r.dtype = .float64 ∧ r.shape = fixShape shape ∧
+      r.vals = xs.map (fun x => polySum (effCoeffs a) (x - originVal a)) := by
+  rw [C15_shape_read_data] at h
+  exact C15_formula a ix r hcal h
+
+/-! ## Element type, special coefficient lists, refusals, histories -/
+
+/-- **element type of every read result**: `float64` exactly when the array is calibrated (whatever the
+stored type: `float32`, every integer width, `bool`), otherwise the stored type — for every index
+expression, including those that select nothing or a single element. -/
+theorem C15_result_dtype (a : Arr) (ix : Index) (r : Result) (h : readData a ix = .ok r) :
+    r.dtype = (if a.coeffsGet ≠ [] ∨ (∃ o, a.origin = some o ∧ o ≠ 0) then DType.float64 else a.dtype) := by
+  obtain ⟨shape, pos, xs, _, _, rfl⟩ := readData_ok a ix r h
+  have hc : calibrated a = true ↔ (a.coeffsGet ≠ [] ∨ (∃ o, a.origin = some o ∧ o ≠ 0)) := by
+    unfold calibrated truthy
+    cases ho : a.origin with
+    | none => cases hcs : a.coeffsGet <;> simp
+    | some o => cases hcs : a.coeffsGet <;> simp
+  by_cases hcal : calibrated a = true
+  · simp [outDtype, hcal, hc.mp hcal]
+  · have : ¬ (a.coeffsGet ≠ [] ∨ (∃ o, a.origin = some o ∧ o ≠ 0)) := fun h' => hcal (hc.mpr h')
+    simp only [outDtype, hcal, this]
+    simp
+
+/-- **the zero polynomial.** A stored coefficient list that consists only of zeros (any length ≥ 1) is a
+calibration like any other: every read returns `0.0` for every selected element, as doubles, whatever the
+origin — not the raw values, and not `x − o`. -/
+theorem C15_zero_polynomial (a : Arr) (cs : List Rat) (ix : Index) (r : Result)
+    (hc : a.coeffs = some cs) (hne : cs ≠ []) (hz : ∀ c ∈ cs, c = 0) (h : readData a ix = .ok r) :
+    r.dtype = .float64 ∧ ∀ v ∈ r.vals, v = 0 := by
+  obtain ⟨heff, hcal⟩ := C15_formula_coeffs a cs hc hne
+  obtain ⟨shape, pos, xs, _, _, rfl⟩ := readData_ok a ix r h
+  refine ⟨by simp [outDtype, hcal], ?_⟩
+  intro v hv
+  simp only [List.mem_map] at hv
+  obtain ⟨x, _, rfl⟩ := hv
+  simp [calibElem, hcal, heff, evalAsc_zeros _ cs hz]
+
+/-- **a constant polynomial** `(c)` makes every read return `c` for every selected element, as doubles -/
+theorem C15_constant_polynomial (a : Arr) (c : Rat) (ix : Index) (r : Result)
+    (hc : a.coeffs = some [c]) (h : readData a ix = .ok r) :
+    r.dtype = .float64 ∧ ∀ v ∈ r.vals, v = c := by
+  obtain ⟨heff, hcal⟩ := C15_formula_coeffs a [c] hc (by simp)
+  obtain ⟨shape, pos, xs, _, _, rfl⟩ := readData_ok a ix r h
+  refine ⟨by simp [outDtype, hcal], ?_⟩
+  intro v hv
+  simp only [List.mem_map] at hv
+  obtain ⟨x, _, rfl⟩ := hv
+  simp [calibElem, hcal, heff, evalAsc_single]
+
+/-- **vanishing high-order coefficients change nothing** — as long as a coefficient remains: appending
+zeros to a non-empty coefficient list leaves every read (values, element type, shape, refusals) as it was.
+(The hypothesis `cs ≠ []` is essential: `C15_zero_polynomial` versus `C15_formula_origin_only`.) -/
+theorem C15_trailing_zeros (a : Arr) (cs zs : List Rat) (ix : Index) (hne : cs ≠ []) (hz : ∀ c ∈ zs, c = 0) :
+    readData { a with coeffs := some (cs ++ zs) } ix = readData { a with coeffs := some cs } ix := by
+  have hne' : cs ++ zs ≠ [] := by simp [hne]
+  apply readData_congr { a with coeffs := some (cs ++ zs) } { a with coeffs := some cs } ix rfl rfl
+  · simp [outDtype, calibrated, Arr.coeffsGet, hne]
+  · funext x
+    have h1 : calibrated { a with coeffs := some (cs ++ zs) } = true := by
+      cases cs <;> simp_all [calibrated, Arr.coeffsGet]
+    have h2 : calibrated { a with coeffs := some cs } = true := by
+      cases cs <;> simp_all [calibrated, Arr.coeffsGet]
+    simp only [calibElem, h1, h2, if_true, effCoeffs, Arr.coeffsGet, hne, hne', if_false, originVal]
+    exact evalAsc_append_zeros _ cs zs hz
+
+/-- the default polynomial written out: coefficients `(0, 1)` with origin `None`/`0` return the stored
+values themselves — but as doubles -/
+theorem C15_identity_polynomial (a : Arr) (ix : Index) (r : Result) (hc : a.coeffs = some [0, 1])
+    (ho : a.origin = none ∨ a.origin = some 0) (h : readData a ix = .ok r) :
+    ∃ shape pos xs, select a.shape ix = .ok (shape, pos) ∧ gather a.raw pos = .ok xs ∧
+      r = ⟨.float64, fixShape shape, xs⟩ := by
+  obtain ⟨heff, hcal⟩ := C15_formula_coeffs a [0, 1] hc (by simp)
+  obtain ⟨shape, pos, xs, hs, hg, rfl⟩ := readData_ok a ix r h
+  refine ⟨shape, pos, xs, hs, hg, ?_⟩
+  have hid : calibElem a = id := by
+    funext x
+    rcases ho with ho | ho <;> simp [calibElem, hcal, heff, evalAsc, originVal, ho]
+  simp [outDtype, hcal, hid]
+
+/-- **a refused operation changes nothing** (C12 overlap): whatever operation answers with an error —
+a bare number or anything without a length as coefficients, a non-number as origin, a read with an index
+expression that is out of range, a write of the wrong size — leaves coefficients, origin, stored elements,
+shape and element type exactly as they were. -/
+theorem C15_refused_changes_nothing (a : Arr) (op : Op) (e : Err) (h : (step a op).2 = .err e) :
+    (step a op).1 = a := by
+  cases op with
+  | setCoeffs c => simp only [step] at h ⊢; split at h <;> simp_all
+  | setOrigin o => simp only [step] at h ⊢; split at h <;> simp_all
+  | read ix => simp only [step]; split <;> rfl
+  | readView w u => simp only [step]; split <;> rfl
+  | getCoeffs => rfl
+  | getOrigin => rfl
+  | rawDump => rfl
+  | write v => simp only [step] at h ⊢; split at h <;> simp_all
+  | reopen => rfl
+
+/-- **only the last assignment counts.** After *any* history (calibration changes, refusals, reads,
+writes, reopening), assigning coefficients `c :: cs` and origin `o` makes every read what it is for the
+array that holds the data the writes alone produced and exactly that calibration: nothing of an earlier
+calibration survives. -/
+theorem C15_last_assignment_wins (a : Arr) (ops : List Op) (c : Rat) (cs : List Rat) (o : Rat) (ix : Index) :
+    readData (exec a (ops ++ [.setCoeffs (.seq (c :: cs)), .setOrigin (.num o)])) ix =
+      readData { a with raw := (exec a (ops.filter isWrite)).raw, coeffs := some (c :: cs), origin := some o } ix := by
+  rw [exec_append]
+  have hr := C15_raw_only_writes a ops
+  have hsd := exec_shape_dtype a ops
+  generalize exec a ops = b at hr hsd
+  have hex : exec b [.setCoeffs (.seq (c :: cs)), .setOrigin (.num o)]
+      = { b with coeffs := some (c :: cs), origin := some o } := by
+    simp [exec, run, step, setCoeffs, setOrigin]
+  rw [hex]
+  apply readData_congr _ _ ix
+  · exact hsd.1
+  · exact hr
+  · simp [outDtype, calibrated, Arr.coeffsGet]
+  · funext x; simp [calibElem, calibrated, Arr.coeffsGet, effCoeffs, originVal]
+
+/-- **write, then read**: after `da[:] = vals` the whole read returns the new values, calibrated with the
+calibration that was in force before the write (a write goes to the stored values as they are: no inverse
+calibration is applied, and the calibration is untouched). -/
+theorem C15_write_then_read (a : Arr) (h : WF a) (vals : List Rat) (hl : vals.length = a.raw.length) :
+    readData (exec a [.write vals]) none = .ok ⟨outDtype a, a.shape, vals.map (calibElem a)⟩ := by
+  have hex : exec a [.write vals] = { a with raw := vals } := by simp [exec, run, step, hl]
+  rw [hex]
+  have hwf : WF { a with raw := vals } := ⟨by simpa [hl] using h.1, h.2⟩
+  have hce : calibElem { a with raw := vals } = calibElem a := rfl
+  have hod : outDtype { a with raw := vals } = outDtype a := rfl
+  have := C15_whole _ hwf
+  simpa only [calibAll, hce, hod] using this
+
 /-! ## Non-vacuity: concrete arrays meeting the hypotheses, with the values the theorems speak about -/
 
 /-- a 2×3 `int16` array with coefficients `(1, 2)` and origin `1/2` -/
@@ -310,5 +485,31 @@ example : ∀ op ∈ exHist, isWrite op = false := by decide
 example : (exec exArr exHist).origin = some 3 ∧ (exec exArr exHist).coeffs = none := by decide +kernel
 example : readData { exArr with coeffs := none, origin := some 0 } (some [.int 1])
     = .ok ⟨.int16, [3], [3, 4, 5]⟩ := by decide +kernel
+
+/-! non-vacuity of the new statements -/
+example : readDataG Gen.readDataBody Gen.applyPolynomialBody exArr (some [.int 1, .slice none none (some 2)])
+    = .ok ⟨.float64, [2], [6, 10]⟩ := by decide +kernel
+/-- the interpreter tells programs apart: evaluating before subtracting the origin is another function … -/
+example : readDataG Gen.readDataBody (.seq (.ite .coeffTruthy .polyval) .subOrigin) exArr (some [.int 0, .int 0])
+    ≠ readData exArr (some [.int 0, .int 0]) := by decide +kernel
+/-- … so is testing only the coefficients (an origin without coefficients would be ignored) … -/
+example : readDataG (.seq .loadCoeff (.seq .loadOrigin (.seq .rawRead
+      (.ite .lenCoeff (.seq (.astype .float64) .callApply))))) Gen.applyPolynomialBody
+      { exArr with coeffs := none } (some [.int 0, .int 1])
+    ≠ readData { exArr with coeffs := none } (some [.int 0, .int 1]) := by decide +kernel
+/-- … and a setter that stores the coefficients under a name the getter does not read -/
+example : (SStmt.writeData "coefficients" .float64).run Gen.coeffGetterName Gen.originGetterName
+      (.coeff (.seq [1])) exArr ≠ setCoeffs exArr (.seq [1]) := by decide +kernel
+example : readData { exArr with coeffs := some [0, 0, 0] } (some [.int 1]) = .ok ⟨.float64, [3], [0, 0, 0]⟩ := by
+  decide +kernel
+example : readData { exArr with coeffs := some [7] } (some [.int 1, .int 1]) = .ok ⟨.float64, [1], [7]⟩ := by
+  decide +kernel
+example : readData { exArr with coeffs := some [1, 2, 0, 0] } none = readData exArr none := by decide +kernel
+example : readData { exArr with dtype := .float32, coeffs := none } (some [.int 0, .int 0])
+    = .ok ⟨.float64, [1], [-1 / 2]⟩ := by decide +kernel
+example : (step exArr (.setCoeffs (.scalar 5))).2 = .err .typeError := by decide +kernel
+example : (step exArr (.read (some [.int 2]))).2 = .err .indexError := by decide +kernel
+example : readData (exec exArr [.write [5, 4, 3, 2, 1, 0]]) (some [.int 0])
+    = .ok ⟨.float64, [3], [10, 8, 6]⟩ := by decide +kernel
 
 end Nix.C15
